@@ -302,6 +302,47 @@ def publication_rule(ctx, r3, r5=None):
             r3.violation(key, "last_publish = %s in %s: it must record the `now` of publish()" % (show(a["value"], 60), caller), loc(a["sp"]))
 
 
+def oti_announced_rule(ctx, rule):
+    """the FEC OTI of an object is announced at one of two places: on FDT-Instance (the session OTI, Fdt::get_fdt_instance) or on the File element
+    (FileDesc::to_file_xml).  A scheme for which the instance-level attributes are left out must be one for which every File carries them."""
+    prog = ctx.prog
+    sets = {}
+    for fn_, want in ((FDT + "::get_fdt_instance", "None"), ("sender::filedesc::FileDesc::to_file_xml", "Some")):
+        f = prog.fn(fn_)
+        sl = Slicer(f.body)
+        fl = Flow(f.body)
+        names = [n for n in sl.var_defs() if re.match(r"^oti_attributes(~\d+)?$", n)]
+        out, wild = set(), False
+        found = False
+        for n in names:
+            for (e, bb) in value_defs(sl, n):
+                ex = sl.expand(e)
+                isnone = ex[0] == "aggr" and ex[2] == "None"
+                issome = ex[0] == "aggr" and ex[2] == "Some" and any(c[0] == "call" and c[1].endswith("Oti::get_attributes") and
+                                                                     re.search(r"^&*self\.oti$", show(c[2][0])) for c in walk(ex))
+                if (want == "None" and isnone) or (want == "Some" and issome):
+                    found = True
+                    hv = held_variants(fl.facts_at(bb), lambda x: "fec_encoding_id" in show(x))
+                    if hv:
+                        out |= set(hv)
+                    else:
+                        wild = True
+        sets[want] = (out, wild, found, f)
+    (omit, omit_wild, f1, gi) = sets["None"]
+    (always, always_wild, f2, tf) = sets["Some"]
+    key = "FEC OTI announced on FDT-Instance or on every File"
+    if not f2 and (omit or omit_wild):
+        raise model.AnchorMissing("to_file_xml: the arm that always writes the OTI of the object was not recognised")
+    if omit_wild and not always_wild:
+        rule.violation(key, "get_fdt_instance leaves the session FEC OTI out under a catch-all arm, to_file_xml writes per-File OTI only for %s" % sorted(always), loc(gi.sp))
+    elif omit - always and not always_wild:
+        rule.violation(key, "for %s neither the FDT-Instance element (get_fdt_instance leaves the session OTI out) nor the File element (to_file_xml writes "
+                            "it only for %s or a per-object override) carries the FEC OTI: a receiver that relies on the FDT cannot decode the object" % (
+                                sorted(omit - always), sorted(always)), loc(gi.sp))
+    else:
+        rule.ok(key, "instance-level OTI omitted for %s, per-File OTI always written for %s" % (sorted(omit) or "no scheme", sorted(always) or "none"), loc(gi.sp))
+
+
 def run(ctx):
     prog = ctx.prog
     ctx.explanation = (
@@ -403,7 +444,8 @@ def run(ctx):
                             "FileDesc::to_file_xml of the listed object; the instance's OTI attributes come from the session OTI", "DEP")
     publication_rule(ctx, r3, r5)
     r3.floor(5, "expiry facts")
-    r5.floor(5, "listing facts")
+    oti_announced_rule(ctx, r5)
+    r5.floor(6, "listing facts")
 
     # ---- R6 receiver-side extraction -----------------------------------------------------------
     r6 = ctx.rule("C10.R6", EXTRACTION_TEXT + "; the FDT receiver hands the instance's bytes to the XML parser unaltered (FdtWriterInner.data is a "
